@@ -26,21 +26,22 @@ type SetVal struct {
 }
 
 type SetOp struct {
-	Kind  string `json:"kind"` // power | unbond | rebond | register | block
+	Kind  string `json:"kind"` // power | unbond | rebond | register | observe | block
 	Val   int    `json:"val"`
 	Power int64  `json:"power,omitempty"`
 	Chain int    `json:"chain,omitempty"`
 }
 
 type SetCase struct {
-	Vals []SetVal `json:"vals"`
-	Ops  []SetOp  `json:"ops"`
+	Window uint64   `json:"window"` // SignedSignerSetTxsWindow: sets older than this and below the observed nonce are pruned
+	Vals   []SetVal `json:"vals"`
+	Ops    []SetOp  `json:"ops"`
 }
 
 var setChains = []string{"ethereum", "bsc", "minter"}
 
 func genSetCase(t *rapid.T) interface{} {
-	c := &SetCase{}
+	c := &SetCase{Window: rapid.SampledFrom([]uint64{1, 2, 5, 10000}).Draw(t, "window")}
 	n := rapid.SampledFrom([]int{1, 2, 3, 3, 4, 5, 7, 10, 20, 40}).Draw(t, "nvals")
 	dist := rapid.IntRange(0, 4).Draw(t, "dist")
 	pow := func(i int) int64 {
@@ -88,9 +89,13 @@ func genSetCase(t *rapid.T) interface{} {
 			op.Kind = "unbond"
 		case k < 46:
 			op.Kind = "rebond"
-		case k < 56:
+		case k < 54:
 			op.Kind = "register"
 			op.Chain = rapid.IntRange(0, 2).Draw(t, "chain")
+		case k < 62:
+			op.Kind = "observe" // the validators report that the external chain adopted a published set
+			op.Chain = rapid.IntRange(0, 2).Draw(t, "chain")
+			op.Val = rapid.IntRange(0, 3).Draw(t, "which") // 0 = the latest set, otherwise an older one
 		default:
 			op.Kind = "block"
 		}
@@ -101,8 +106,10 @@ func genSetCase(t *rapid.T) interface{} {
 
 func runSetCase(ci interface{}, rec *pbt.Rec) *pbt.Failure {
 	c := ci.(*SetCase)
-	cfg := sim.Config{Tokens: attTokens, Prices: []sim.PriceCfg{{Name: "hub", Value: "1"}}}
+	cfg := sim.Config{Tokens: attTokens, Prices: []sim.PriceCfg{{Name: "hub", Value: "1"}}, SignerSetWindow: c.Window}
 	hasKey := map[string]map[int]bool{}
+	evNonce := map[string]uint64{}
+	observed := 0
 	for _, ch := range setChains {
 		hasKey[ch] = map[int]bool{}
 	}
@@ -293,6 +300,24 @@ func runSetCase(ci interface{}, rec *pbt.Rec) *pbt.Failure {
 			})
 		case "rebond":
 			h.QueueStaking(func(s *sim.SimStaking) { s.Vals[v].Bonded, s.Vals[v].Unbonding = true, false })
+		case "observe":
+			ch := setChains[op.Chain%3]
+			sets := h.SignerSets(ch)
+			if len(sets) == 0 {
+				break
+			}
+			ss := sets[len(sets)-1]
+			if op.Val > 0 && len(sets) > op.Val {
+				ss = sets[len(sets)-1-op.Val]
+			}
+			evNonce[ch]++
+			any, _ := mtypes.PackEvent(&mtypes.SignerSetTxExecutedEvent{EventNonce: evNonce[ch], SignerSetTxNonce: ss.Nonce, ExternalHeight: 100 + evNonce[ch], Members: ss.Signers, TxHash: "0x5e7"})
+			for vi, sv := range h.Staking.Vals {
+				if sv.Bonded {
+					h.Deliver(&mtypes.MsgSubmitExternalEvent{Event: any, Signer: sdk.AccAddress(sim.ValAddr(vi)).String(), ChainId: ch})
+				}
+			}
+			observed++
 		case "register":
 			ch := setChains[op.Chain%3]
 			if hasKey[ch][v] {
@@ -322,6 +347,9 @@ func runSetCase(ci interface{}, rec *pbt.Rec) *pbt.Failure {
 	}
 	if nearDrift > 0 {
 		rec.Label("drift-4-to-6-percent")
+	}
+	if observed > 0 && c.Window < 100 {
+		rec.Label("observed-set-with-short-prune-window")
 	}
 	return nil
 }
